@@ -971,11 +971,20 @@ func (r *stateResolverV2) getPowerLevelFromAuthEvents(event PDU) int64 {
 		// get the create event
 		createEvent := r.resolvedCreate
 		if createEvent == nil {
-			panic("getPowerLevelFromAuthEvents: missing resolved create event, cannot calculate PL of sender!")
+			// State resolution v2.1 starts from the empty state, so no create
+			// event has been resolved yet: use the one the event itself cites.
+			for _, authID := range event.AuthEventIDs() {
+				if authEvent, ok := r.authEventMap[authID]; ok && authEvent.Type() == spec.MRoomCreate && authEvent.StateKeyEquals("") {
+					createEvent = authEvent
+					break
+				}
+			}
 		}
-		for _, creator := range CreatorsFromCreateEvent(createEvent) {
-			if creator == string(user) {
-				return CreatorPowerLevel
+		if createEvent != nil {
+			for _, creator := range CreatorsFromCreateEvent(createEvent) {
+				if creator == string(user) {
+					return CreatorPowerLevel
+				}
 			}
 		}
 		// otherwise they aren't a creator, so check the PL event.
